@@ -7,6 +7,7 @@ package c14
 // an oracle.
 
 import (
+	"os"
 	"regexp"
 	"strings"
 
@@ -159,6 +160,11 @@ func predict(m *model, op Op) prediction {
 			if isBadScript(op.Script) && op.Script != sNoSrc {
 				return rej
 			}
+			// (the type of a template is not derived from the new script: a stream
+			// template cannot take a batch script and vice versa)
+			if op.Script != sNoSrc && strings.Contains(op.Script, "batch") != tm.Batch {
+				return rej
+			}
 			script = op.Script
 		}
 		if op.NewID != "" && op.NewID != tm.ID {
@@ -188,10 +194,29 @@ func predict(m *model, op Op) prediction {
 // excluded input classes (known defects, see the final report of the C14 build and
 // known_findings.json). A class is removed from this table when its fix is in /repo.
 var excludedCatalogue = map[string]bool{
-	"create-from-template-rejected":   true,
-	"template-changed-without-rename": true,
+	"create-from-template-rejected":        true,
+	"template-changed-without-rename":      true,
 	"association-moved-by-rejected-update": true,
 	"template-update-rolled-back":          true,
+	"batch-task-that-dies-by-itself":       true,
+}
+
+// isExcluded: a class of the table is excluded unless VERIF_C14_INCLUDE names it (comma
+// separated, or "all"): how a proposed fix is validated before the table is edited.
+func isExcluded(table map[string]bool, class string) bool {
+	if !table[class] {
+		return false
+	}
+	inc := os.Getenv("VERIF_C14_INCLUDE")
+	if inc == "all" {
+		return false
+	}
+	for _, c := range strings.Split(inc, ",") {
+		if c == class {
+			return false
+		}
+	}
+	return true
 }
 
 func pick[T any](t *rapid.T, label string, xs []T) T { return rapid.SampledFrom(xs).Draw(t, label) }
@@ -285,8 +310,11 @@ func drawPlainScript(t *rapid.T, r *kit.Rec) string {
 	case k < 15:
 		// a batch task that has a grant but nowhere to query starts and then dies by
 		// itself; whether kapacitor notices is a race (see TestAsyncBatchDeathRace)
-		r.Exclude("batch-task-that-dies-by-itself")
-		return sBatchOt
+		if isExcluded(excludedCatalogue, "batch-task-that-dies-by-itself") {
+			r.Exclude("batch-task-that-dies-by-itself")
+			return sBatchOt
+		}
+		return sBatchDB
 	case k < 18:
 		return pick(t, "bad", badScripts)
 	}
@@ -448,11 +476,11 @@ func genHistory(t *rapid.T, r *kit.Rec, excluded map[string]bool, n int, restart
 		}
 		if op.K != "restart" {
 			p := predict(sh, op)
-			if !p.accept && p.late != "" && excluded[p.late] {
+			if !p.accept && p.late != "" && isExcluded(excluded, p.late) {
 				r.Exclude(p.late)
 				return false
 			}
-			if p.known != "" && excluded[p.known] {
+			if p.known != "" && isExcluded(excluded, p.known) {
 				r.Exclude(p.known)
 				return false
 			}
@@ -468,6 +496,31 @@ func genHistory(t *rapid.T, r *kit.Rec, excluded map[string]bool, n int, restart
 	}
 	for tries := 0; len(ops) < n && tries < 4*maxSteps; tries++ {
 		push(drawOp(t, r, sh))
+	}
+	// the situation the non-trivial rule names: a rename or a template update of an
+	// enabled task, then a restart
+	if restarts && rare(t, "tail", 45) {
+		var enabled, tmpls []string
+		for _, id := range sortedKeys(sh.tasks) {
+			if tk := sh.tasks[id]; tk.Enabled {
+				enabled = append(enabled, id)
+				if _, ok := sh.tmpls[tk.Tmpl]; ok && tk.Assoc {
+					tmpls = append(tmpls, tk.Tmpl)
+				}
+			}
+		}
+		pushed := false
+		if len(tmpls) > 0 && often(t, "tail-template", 60) {
+			pushed = push(Op{K: "tupdate", ID: pick(t, "tail-tmpl", tmpls), Script: pick(t, "tail-script", []string{tWindow, tIntTh, tExtra, tFloatTh})})
+		} else if len(enabled) > 0 {
+			pushed = push(Op{K: "update", ID: pick(t, "tail-id", enabled), NewID: drawID(t, "tail-newid", taskIDs, badTaskID, 90, freeTask(sh))})
+		}
+		if pushed {
+			if rare(t, "tail-more", 30) {
+				push(drawOp(t, r, sh))
+			}
+			push(Op{K: "restart"})
+		}
 	}
 	return ops, sh
 }
